@@ -358,7 +358,20 @@ def W21():
     return a != b, f"standalone BBM={a['BBM']} with SMA_5(high) present BBM={b['BBM']}"
 
 
-ALL = [W01, W02, W03, W04, W05, W06, W07, W08, W09, W10, W11, W12, W14, W15, W16, W17, W18, W19, W20, W21]
+def W22():
+    """L-1: a top-level indicator whose override name equals another indicator's helper name shadows that helper"""
+    cs = stream(60)
+    alone = I.KC(candles=copy.deepcopy(cs), period=10)
+    alone.calculate()
+    h = Hexital("x", copy.deepcopy(cs), [I.EMA(period=3, fullname_override="KC_10_2,0_EMA"), I.KC(period=10)])
+    h.calculate()
+    a = alone.as_list()[-1]
+    b = h.indicator("KC_10_2,0").as_list()[-1]
+    return a != b, f"KC band standalone={a['band']} with a top-level 'KC_10_2,0_EMA' present={b['band']}"
+
+
+
+ALL = [W01, W02, W03, W04, W05, W06, W07, W08, W09, W10, W11, W12, W14, W15, W16, W17, W18, W19, W20, W21, W22]
 
 if __name__ == "__main__":
     want = set(sys.argv[1:])
@@ -370,3 +383,4 @@ if __name__ == "__main__":
             print(f"{w.__name__}: {'DEFECT' if bad else 'ok    '}  {w.__doc__.strip()}  --  {detail}")
         except Exception as e:  # noqa
             print(f"{w.__name__}: DEFECT(raised {type(e).__name__}: {e})  {w.__doc__.strip()}")
+
